@@ -239,7 +239,7 @@ def work_cli(task):
     os.makedirs(os.path.join(BUILD, "run"), exist_ok=True)
     shapes = ["(", ")", "1 2 )", "\"abc", "\"%( 1", "123foo", "08", "0x", "foo", "let A := 1; let A := 2;", "[", "?(", "1 || (",
               "if 1 then 2", "\"%( ) %)\"", "drop", "1 drop drop", "(1, 2) if ( == 2) then (drop drop) else ()", "1 \"a\" add",
-              "{", "|", "1 |A| 2", "let := 1;", "\\", "`", "'", "1 ; 2"]
+              "{", "|", "1 |A| 2", "let := 1;", "\\", "`", "'", "1 ; 2", "(1, drop drop)", "(1, 2, 3 over over over over)", "1 ?(drop drop)"]
     for i in range(start, start + count):
         rnd = random.Random((seed << 32) ^ i ^ 0xC14C)
         q = shapes[i % len(shapes)]
@@ -265,6 +265,19 @@ def work_cli(task):
             ok = rc == 1 and b"Error" in err
         else:
             ok = rc == 2 and (b"dwgrep:" in err)
+        if ok and not soft_only:
+            # the failure decides the exit status also when the message is withheld (-s), results are counted (-c)
+            # or some results came before it
+            for extra in (["-s"], ["-c"], ["-s", "-c"], ["-s", "-H"]):
+                rc2, out2, err2 = run_cli(extra + ["-e", q])
+                ev.case(key=("cli", tuple(extra), q), nontrivial=True)
+                ev.label("cli:" + "".join(extra))
+                if rc2 != 2:       # (whether -s also withholds the message of a query that does not compile is C19's business)
+                    ok = False
+                    err, rc = err2, rc2
+                    how = 0
+                    q = " ".join(extra) + " -e " + q
+                    break
         if not ok:
             ev.violations.append({"property": PID, "query": q, "cli_mode": ["-e", "positional", "-f"][how],
                                   "reason": "CLI: exit status %d, stderr %r" % (rc, err[:300]),
